@@ -33,7 +33,8 @@ ASSUMPTIONS = ['EpsAlg is compared with the exact table only while the exact tab
                '(relative 1e-7 on well-conditioned prefixes)']
 C_EPS = 64.0
 MAX_EXACT_TERMS = 13
-FAMILIES = ['transients', 'random', 'alternating', 'rounded']
+UNRESOLVED = 1e-3   # a table difference that +-1 ulp perturbations move by more than this fraction 'vanishes' in binary64
+FAMILIES = ['transients', 'random', 'alternating', 'rounded', 'extreme']
 
 
 def _dea_return(ctx):
@@ -104,6 +105,28 @@ def make_sequence(case):
         seq = [float(v) for v in rng.normal(size=N) * scale]
         if rng.random() < 0.3:
             seq = [float(v) for v in np.cumsum(seq) / (1 + np.arange(N))]
+    elif fam == 'extreme':
+        # the ends of the binary64 range: finite input all the same
+        mode = int(rng.integers(0, 4))
+        meta = dict(mode=mode, epsalg=mode >= 2)
+        if mode == 0:      # a * q**n with small |q|: the terms run through the subnormals down to exactly 0.0
+            q = float(10.0 ** rng.uniform(-8, -1.3) * rng.choice([-1.0, 1.0]))
+            a = float(rng.normal() * 10.0 ** rng.uniform(-5, 5)) or 1.0
+            seq = [a * q ** n for n in range(N)]
+        elif mode == 1:    # random subnormal / barely normal values
+            scale = 10.0 ** rng.uniform(-323, -290)
+            seq = [float(v) for v in rng.normal(size=N) * scale]
+        elif mode == 2:    # an ordinary limit-plus-transients sequence in units of 1e+-(20..140)
+            unit = 10.0 ** (rng.uniform(20, 140) * rng.choice([-1.0, 1.0]))
+            L = float(np.round(rng.normal(), 3))
+            a = [float(np.round(v, 3)) or 0.5 for v in rng.normal(size=k)]
+            q = [float(c) for c in np.round(rng.choice(np.arange(0.1, 0.9, 0.1), size=k, replace=False) * rng.choice([-1.0, 1.0], size=k), 2)]
+            seq = [float((L + sum(ai * qi ** n for ai, qi in zip(a, q))) * unit) for n in range(N)]
+            meta.update(unit=unit)
+        else:              # random large values (all <= 1e100 in magnitude, the cap the finiteness clause is asserted under)
+            scale = 10.0 ** rng.uniform(60, 99)
+            seq = [float(v) for v in np.clip(rng.normal(size=N), -8, 8) * scale]
+        seq = [float(v) for v in seq]
     else:  # alternating series partial sums, e.g. log 2, pi/4
         p = rng.uniform(0.5, 2.0)
         terms = (-1.0) ** np.arange(N) / (1.0 + np.arange(N)) ** p
@@ -128,25 +151,56 @@ def _spread_mp(prefix, n_terms, exact, rng, runs):
         eps = mpmath.mpf(EPS)
         k = (n_terms - 1) // 2 * 2
         worst = mpmath.mpf(0)
-        for _ in range(runs):
-            sg = rng.integers(-1, 2, size=(n_terms + 2) * (n_terms + 2))
+        worst_any = mpmath.mpf(0)
+        base = None
+        for run in range(runs + 1):
+            # run 0 is unperturbed: it records every table difference; a perturbed run in which a difference moves by
+            # more than UNRESOLVED of itself means binary64 cannot tell that difference from zero ("a table difference
+            # vanishes" in the arithmetic the code runs in) and the prefix is outside the statement
+            sg = rng.integers(-1, 2, size=(n_terms + 2) * (n_terms + 2)) if run else np.zeros((n_terms + 2) * (n_terms + 2), dtype=int)
             it = iter(sg)
             prev = [mpmath.mpf(0)] * (n_terms + 1)
             cur = [mpmath.mpf(v) + int(next(it)) * mpmath.mpf(math.ulp(v)) for v in prefix]
             col = 0
+            diffs = []
+            evens = [cur[-1]]
             while col < k:
                 new = []
                 for n in range(len(cur) - 1):
                     d = cur[n + 1] - cur[n]
                     if d == 0:
                         return None
+                    diffs.append(d)
                     new.append((prev[n + 1] + 1 / d) * (1 + eps * int(next(it))))
                 prev, cur = cur, new
                 col += 1
+                if col % 2 == 0:
+                    evens.append(cur[-1])
+            if run == 0:
+                base = diffs
+                base_evens = evens
+                continue
+            for d, d0 in zip(diffs, base):
+                if abs(d - d0) > UNRESOLVED * abs(d0):
+                    return None
             worst = max(worst, abs(cur[-1] - ex))
+            worst_any = max([worst_any] + [abs(a - b) for a, b in zip(evens, base_evens)])
+        _spread_mp.any_even = float(worst_any)   # the same, over every even column's newest entry (Dea may pick any)
         return float(worst)
     finally:
         mp.prec = old
+
+
+def _guard_in_cone(guard_cols, n):
+    """Did the library's vanishing-difference substitution land on an entry the result of call n (0-based) depends on?
+    guard_cols[d] is the set of table columns holding the substitute on anti-diagonal d; the result eps_k^(n-k),
+    k = n - n % 2, depends on eps_c^(i) with c < k and n-k <= i <= n-c (and on itself)."""
+    k = n - n % 2
+    for d in range(n + 1):
+        for c in guard_cols[d]:
+            if (c < k and d - c >= n - k) or (c == k and d == n):
+                return True
+    return False
 
 
 def _make_perturb(rng):
@@ -187,16 +241,21 @@ def run_case(case, ctx):
     # ------------------------------------------------------------------ EpsAlg
     ea = EpsAlg()
     ea_out = []
+    ea_guard = []   # did the library's own vanishing-difference substitution (1e60) appear in its table so far
     try:
         for s in seq[:MAX_EXACT_TERMS]:
             ea_out.append(ea(s))
+            d_ = len(ea.epstab) - 1
+            ea_guard.append({d_ - j for j, v in enumerate(ea.epstab) if v == 1.0e+60})   # the substitute itself (values that size occur in the 'extreme' family)
     except Exception as exc:
         ctx.reject('epsalg_raised', observed=repr(exc), detail=dict(at=len(ea_out)))
         return
     vanished = False
     tables = {}
+    spreads = {}
     for n_terms in range(1, len(ea_out) + 1):
-        if vanished:
+        if vanished or meta.get('epsalg') is False:
+            # (subnormal sequences: the relative rounding model of the conditioning estimate does not hold there)
             break
         prefix = seq[:n_terms]
         cols, ok = wynn_table(prefix)
@@ -214,7 +273,17 @@ def run_case(case, ctx):
             vanished = True
             break
         tables[n_terms] = cols
+        spreads[n_terms] = _spread_mp.any_even
         obs = float(ea_out[n_terms - 1])
+        if _guard_in_cone(ea_guard, n_terms - 1):
+            # every difference of this prefix is resolved in binary64 (checked above), so the library had no reason to
+            # substitute its "infinite" entry
+            kk = (n_terms - 1) // 2 * 2
+            mad = min([to_float(abs(b - a)) for col in cols[:max(kk, 1)] for a, b in zip(col[:-1], col[1:])] or [math.inf])
+            ctx.reject('epsalg_vanishing_guard_fired_on_resolved_differences', observed=obs, expected=to_float(exact),
+                       detail=dict(n_terms=n_terms, seq=prefix, smallest_table_difference=mad),
+                       smallest_difference_below_the_absolute_1e60_threshold=bool(mad <= 1e-59))
+            break    # (the Dea part of the history is still examined)
         bound = C_EPS * (spread + EPS * to_float(abs(exact)))
         err = to_float(abs(F(obs) - exact)) if math.isfinite(obs) else math.inf
         ratio = err / bound if bound > 0 else (0.0 if err == 0 else math.inf)
@@ -267,8 +336,9 @@ def run_case(case, ctx):
             scale = max(max(abs(v) for v in seq[:i + 1]), max(to_float(abs(c)) for c in cands))
             best = min(to_float(abs(F(r) - c)) for c in cands)
             ctx.count('dea_table_membership_asserted')
-            ctx.maximum('dea_membership_err/(1e-7*scale)', best / (1e-7 * scale) if scale > 0 else 0.0)
-            if scale > 0 and best > 1e-7 * scale:
+            tol = 1e-7 * scale + C_EPS * spreads[i + 1]
+            ctx.maximum('dea_membership_err/(1e-7*scale+C*spread)', best / tol if tol > 0 else 0.0)
+            if scale > 0 and best > tol:
                 ctx.reject('dea_result_is_no_even_entry_of_the_epsilon_table', observed=r,
                            expected=[to_float(c) for c in cands], detail=dict(at_term=i + 1, seq=seq[:i + 1]))
                 return
@@ -288,7 +358,13 @@ def run_case(case, ctx):
     if N >= 2 and outs[1][0] != seq[1]:
         ctx.reject('dea_second_term', observed=outs[1][0], expected=seq[1])
         return
-    if N >= 3 and finite_in:
+    # the relative rounding model behind the tolerances below needs the three terms, their differences and the
+    # reciprocals of those well inside the normal range (the totality clauses above are asserted everywhere)
+    d3 = [abs(seq[1] - seq[0]), abs(seq[2] - seq[1])] if N >= 3 else []
+    normal3 = N >= 3 and all(v == 0 or 1e-150 <= abs(v) <= 1e100 for v in list(seq[:3]) + d3)
+    if N >= 3 and finite_in and not normal3:
+        ctx.count('dea_first_three_outside_normal_range(not compared)')
+    if N >= 3 and finite_in and normal3:
         r3, e3 = dea3(np.float64(seq[0]), np.float64(seq[1]), np.float64(seq[2]))
         r3, e3 = float(r3[0]), float(e3[0])
         ctx.count('dea_first_three_asserted')
@@ -312,7 +388,11 @@ def run_case(case, ctx):
                     ctx.reject('dea_third_term_abserr_differs_from_dea3', observed=outs[2][1], expected=e3,
                                detail=dict(seq=seq[:3]))
                     return
-                if len(ea_out) >= 3:
+                # (EpsAlg treats |difference| <= 1e-60 as vanished, whatever the scale: see the finding
+                # epsalg-absolute-vanishing-threshold, reported where the guard is observed; not compared here)
+                inv_gap = abs(1 / d1 - 1 / d2)
+                absolute_guard = min(abs(d1), abs(d2), inv_gap) <= Fraction(1, 10 ** 59)
+                if len(ea_out) >= 3 and not absolute_guard:
                     fc = to_float(abs(corr))
                     b = 16 * EPS * (abs(seq[1]) + fc + to_float(abs(S)) + fc * fc * to_float(inv))
                     if not (abs(outs[2][0] - to_float(S)) <= b and abs(float(ea_out[2]) - to_float(S)) <= b):
@@ -337,6 +417,9 @@ def classify(wit):
         return 'dea-table-overflow-after-convergence'
     if chk == 'dea_abserr_below_5eps_floor' and facts.get('estimate_came_from_dea_routine') is False:
         return 'dea-floor-not-applied-on-restart-path'
+    if chk == 'epsalg_vanishing_guard_fired_on_resolved_differences' and \
+            facts.get('smallest_difference_below_the_absolute_1e60_threshold') is True:
+        return 'epsalg-absolute-vanishing-threshold'
     return None
 
 
